@@ -267,7 +267,7 @@ func (fv *FV) evalAppend(st *State, c *ast.CallExpr) Term {
 	// in-place version
 	a1 := sel(E, "(sbase "+s.S+")")
 	for i, v := range vals {
-		a1 = sto(a1, app("+", "(soff "+s.S+")", "(slen "+s.S+")", fmt.Sprint(i)), v.S)
+		a1 = sto(a1, elemAddr(s.S, app("+", "(slen "+s.S+")", fmt.Sprint(i))), v.S)
 	}
 	E1 := sto(E, "(sbase "+s.S+")", a1)
 	r1 := fmt.Sprintf("(mk-slice (sbase %s) (soff %s) (+ (slen %s) %d) (scap %s))", s.S, s.S, s.S, k, s.S)
@@ -279,7 +279,7 @@ func (fv *FV) evalAppend(st *State, c *ast.CallExpr) Term {
 	fv.define(st, and(app(">", nb, "0"), not(sel(alloc, nb)), app(">=", ncap, app("+", "(slen "+s.S+")", fmt.Sprint(k)))))
 	fv.nfresh++
 	kk := fmt.Sprintf("k?%d", fv.nfresh)
-	fv.define(st, fmt.Sprintf("(forall ((%s Int)) (! (=> (and (<= 0 %s) (< %s (slen %s))) (= (select %s %s) (select (select %s (sbase %s)) (+ (soff %s) %s)))) :pattern ((select %s %s))))", kk, kk, kk, s.S, na, kk, E, s.S, s.S, kk, na, kk))
+	fv.define(st, fmt.Sprintf("(forall ((%s Int)) (! (=> (and (<= 0 %s) (< %s (slen %s))) (= (select %s %s) (select (select %s (sbase %s)) (at$ (soff %s) %s)))) :pattern ((select %s %s))))", kk, kk, kk, s.S, na, kk, E, s.S, s.S, kk, na, kk))
 	a2 := na
 	for i, v := range vals {
 		a2 = sto(a2, app("+", "(slen "+s.S+")", fmt.Sprint(i)), v.S)
@@ -298,10 +298,10 @@ func (fv *FV) evalAppend(st *State, c *ast.CallExpr) Term {
 		// "in place or reallocated": the old elements are where they were, the new ones follow
 		fv.nfresh++
 		kq := fmt.Sprintf("k?%d", fv.nfresh)
-		newRead := sel(sel(newE, "(sbase "+res+")"), app("+", "(soff "+res+")", kq))
-		fv.define(st, fmt.Sprintf("(forall ((%s Int)) (! (=> (and (<= 0 %s) (< %s (slen %s))) (= %s (select (select %s (sbase %s)) (+ (soff %s) %s)))) :pattern (%s)))", kq, kq, kq, s.S, newRead, E, s.S, s.S, kq, newRead))
+		newRead := sel(sel(newE, "(sbase "+res+")"), elemAddr(res, kq))
+		fv.define(st, fmt.Sprintf("(forall ((%s Int)) (! (=> (and (<= 0 %s) (< %s (slen %s))) (= %s (select (select %s (sbase %s)) (at$ (soff %s) %s)))) :pattern (%s)))", kq, kq, kq, s.S, newRead, E, s.S, s.S, kq, newRead))
 		for i, v := range vals {
-			fv.define(st, eq(sel(sel(newE, "(sbase "+res+")"), app("+", "(soff "+res+")", "(slen "+s.S+")", fmt.Sprint(i))), v.S))
+			fv.define(st, eq(sel(sel(newE, "(sbase "+res+")"), elemAddr(res, app("+", "(slen "+s.S+")", fmt.Sprint(i)))), v.S))
 		}
 		fv.define(st, and(eq("(slen "+res+")", app("+", "(slen "+s.S+")", fmt.Sprint(k))), app("<=", "(slen "+res+")", "(scap "+res+")"), app("<=", "0", "(soff "+res+")")))
 	}
@@ -375,10 +375,10 @@ func (fv *FV) appendSlice(st *State, s, src Term, t types.Type, et types.Type, p
 	srcA := sel(E, "(sbase "+src.S+")")
 	roff := "(soff " + res + ")"
 	// appended elements
-	fv.define(st, fmt.Sprintf("(forall ((%s Int)) (! (=> (and (<= 0 %s) (< %s %s)) (= (select %s (+ %s (slen %s) %s)) (select %s (+ (soff %s) %s)))) :pattern ((select %s (+ %s (slen %s) %s)))))", kk, kk, kk, n, na, roff, s.S, kk, srcA, src.S, kk, na, roff, s.S, kk))
+	fv.define(st, fmt.Sprintf("(forall ((%s Int)) (! (=> (and (<= (slen %s) %s) (< %s (+ (slen %s) %s))) (= (select %s (at$ %s %s)) (select %s (at$ (soff %s) (- %s (slen %s)))))) :pattern ((select %s (at$ %s %s)))))", kk, s.S, kk, kk, s.S, n, na, roff, kk, srcA, src.S, kk, s.S, na, roff, kk))
 	// in place: everything outside the appended window is unchanged; fresh: prefix copied
 	fv.define(st, implies(inplace, fmt.Sprintf("(forall ((%s Int)) (! (=> (or (< %s (+ (soff %s) (slen %s))) (>= %s (+ (soff %s) (slen %s) %s))) (= (select %s %s) (select %s %s))) :pattern ((select %s %s))))", kk, kk, s.S, s.S, kk, s.S, s.S, n, na, kk, oldA, kk, na, kk)))
-	fv.define(st, implies(not(inplace), fmt.Sprintf("(forall ((%s Int)) (! (=> (and (<= 0 %s) (< %s (slen %s))) (= (select %s %s) (select %s (+ (soff %s) %s)))) :pattern ((select %s %s))))", kk, kk, kk, s.S, na, kk, oldA, s.S, kk, na, kk)))
+	fv.define(st, implies(not(inplace), fmt.Sprintf("(forall ((%s Int)) (! (=> (and (<= 0 %s) (< %s (slen %s))) (= (select %s %s) (select %s (at$ (soff %s) %s)))) :pattern ((select %s %s))))", kk, kk, kk, s.S, na, kk, oldA, s.S, kk, na, kk)))
 	newE := fv.fresh("E", fv.compSort[key])
 	fv.define(st, eq(newE, sto(E, "(sbase "+res+")", na)))
 	fv.heapSet(st, key, newE)
@@ -405,7 +405,7 @@ func (fv *FV) evalCopy(st *State, dst, src Term, c *ast.CallExpr) Term {
 	kk := fmt.Sprintf("k?%d", fv.nfresh)
 	dA := sel(E, "(sbase "+dst.S+")")
 	doff := "(soff " + dst.S + ")"
-	fv.define(st, fmt.Sprintf("(forall ((%s Int)) (! (=> (and (<= 0 %s) (< %s %s)) (= (select %s (+ %s %s)) (select %s (+ %s %s)))) :pattern ((select %s (+ %s %s)))))", kk, kk, kk, n, na, doff, kk, srcA, soff, kk, na, doff, kk))
+	fv.define(st, fmt.Sprintf("(forall ((%s Int)) (! (=> (and (<= 0 %s) (< %s %s)) (= (select %s (at$ %s %s)) (select %s (at$ %s %s)))) :pattern ((select %s (at$ %s %s)))))", kk, kk, kk, n, na, doff, kk, srcA, soff, kk, na, doff, kk))
 	fv.define(st, fmt.Sprintf("(forall ((%s Int)) (! (=> (or (< %s %s) (>= %s (+ %s %s))) (= (select %s %s) (select %s %s))) :pattern ((select %s %s))))", kk, kk, doff, kk, doff, n, na, kk, dA, kk, na, kk))
 	fv.heapSet(st, key, sto(E, "(sbase "+dst.S+")", na))
 	fv.noteElemWrite(st, key, "(sbase "+dst.S+")")
